@@ -337,6 +337,7 @@ theorem C06_refines_linkRun {now : Nat} {classic : Bool} {A : SysDir.Op → Prop
   | tick _ _ ih => exact neutral ih (SysDir.sameW_tick _ now)
   | kaEcho data _ _ ih => exact neutral ih (SysDir.sameW_kaEcho _ data now)
   | srtAck x _ _ ih => exact neutral ih (SysDir.sameW_srtAck _ x now)
+  | stamp w ld ccb cct _ _ ih => exact neutral ih ⟨rfl, rfl, rfl⟩
   | @sack a seq ha _ ih =>
     show Reach _ _ (proj (a.core.srtlaAck seq classic now).1)
     cases classic
@@ -807,8 +808,19 @@ theorem C06_direction_hk (s : Sys.Sys F) (now : Nat) (hr : RangeInv s) (j : Nat)
   · exact .inl ⟨a.1, a.2.1, a.2.2.1⟩
   · exact .inr (.inr ⟨a.1.1, a.1.2, a.2⟩)
 
+/-- A verdict stamp (`Ev.stamp`) leaves the whole accounting core of every link as it was. -/
+theorem stamp_core (s : Sys.Sys F) (idx : Nat) (weak ld ccb : Bool) (cct : Nat) (j : Nat) (l l' : FLink F)
+    (hl : s.links[j]? = some l) (hl' : (Sys.step s (.stamp idx weak ld ccb cct)).1.links[j]? = some l') :
+    l'.core = l.core := by
+  have hg : (Sys.stampLink s.links idx weak ld ccb cct)[j]? = some l' := hl'
+  rw [Hk.stampLink_get, hl] at hg
+  simp only [Option.map_some, Option.some.injEq] at hg
+  rw [← hg]
+  unfold Hk.stampOne
+  split <;> rfl
+
 /-- **(a) Direction, every event constructor, every link** (the summary; the per-arm theorems above say more):
-a client datagram, a flush and the configuration / injection events never change a window except by the tear-down after a
+a client datagram, a flush, the configuration / injection events and the verdict stamps never change a window except by the tear-down after a
 failed send (20000); an uplink datagram that is not an SRTLA ACK (0x9100) and not REG_ERR (0x9210) never
 increases a window, one that is not an SRT NAK (0x8003) and not REG_ERR never decreases one, REG_ERR leaves
 every window or resets it to 20000; housekeeping never decreases a window except by tear-down to 20000, and in
@@ -822,6 +834,7 @@ theorem C06_direction_sys (s : Sys.Sys F) (e : Sys.Ev) (hr : RangeInv s) (j : Na
     | .crit _ => l' = l
     | .failNext _ => l' = l
     | .failBind _ => l' = l
+    | .stamp _ _ _ _ _ => l'.core = l.core
     | .uplink _ _ data =>
         (Codec.getPacketTypeS data = none → l' = l) ∧
         ∀ pt, Codec.getPacketTypeS data = some pt →
@@ -842,6 +855,7 @@ theorem C06_direction_sys (s : Sys.Sys F) (e : Sys.Ev) (hr : RangeInv s) (j : Na
   | crit d => rw [show (Sys.step s (.crit d)).1.links = s.links from rfl, hl] at hl'; exact (Option.some.inj hl').symm
   | failNext cid => rw [show (Sys.step s (.failNext cid)).1.links = s.links from rfl, hl] at hl'; exact (Option.some.inj hl').symm
   | failBind cid => rw [show (Sys.step s (.failBind cid)).1.links = s.links from rfl, hl] at hl'; exact (Option.some.inj hl').symm
+  | stamp idx weak ld ccb cct => exact stamp_core s idx weak ld ccb cct j l l' hl hl'
   | uplink now cid data =>
     obtain ⟨h0, h⟩ := C06_direction_uplink s now cid data hr j l l' hl hl'
     refine ⟨h0, fun pt hpt => ?_⟩
@@ -1017,6 +1031,9 @@ theorem C06_fast_recovery_sys (s : Sys.Sys F) (e : Sys.Ev) (hr : RangeInv s) (j 
     rw [show (Sys.step s (.failBind cid)).1.links = s.links from rfl, hl] at hl'
     have e' : l'.core.cong = l.core.cong := by rw [Option.some.inj hl']
     exact same e'
+  | stamp idx weak ld ccb cct =>
+    have e' : l'.core.cong = l.core.cong := by rw [stamp_core s idx weak ld ccb cct j l l' hl hl']
+    exact same e'
   | uplink now cid data =>
     obtain ⟨h0, h⟩ := C06_direction_uplink s now cid data hr j l l' hl hl'
     cases hpt : Codec.getPacketTypeS data with
@@ -1108,6 +1125,7 @@ theorem C06_direction_run (s : Sys.Sys F) (pre : List Sys.Ev) (e : Sys.Ev)
     | .crit _ => l' = l
     | .failNext _ => l' = l
     | .failBind _ => l' = l
+    | .stamp _ _ _ _ _ => l'.core = l.core
     | .uplink _ _ data =>
         (Codec.getPacketTypeS data = none → l' = l) ∧
         ∀ pt, Codec.getPacketTypeS data = some pt →
